@@ -5,3 +5,4 @@ import WowVerif.Props.C13
 #print axioms Wv.M2.anim_section_roundtrip
 #print axioms Wv.M2.anim_file_roundtrip
 #print axioms Wv.M2.skin_sections_tile
+#print axioms Wv.M2.skin_offset_zero_iff_empty
